@@ -187,3 +187,105 @@ Proof.
     destruct (HT (x / tl)) as [_ Hg]. rewrite Hg.
     rewrite <- X4. destruct (N.ltb_spec (x mod tl) tl); [|lia]. cbn [andb]. reflexivity.
 Qed.
+
+Definition same_handle (st st' : cstate) : Prop :=
+  pos st' = pos st /\ rbuf st' = rbuf st /\ rerr st' = rerr st /\ cache_on st' = cache_on st.
+
+Lemma write_at_spec : forall tl st off b r st',
+  0 < tl -> wf tl (tracts st) (ntr st) -> cache_ok st -> (0 <= off)%Z -> 0 < rlen b ->
+  write_at tl st off b = (r, st') ->
+  r = (rlen b, E_OK) /\ tract_written tl (Z.to_N off) b (tracts st) (tracts st') /\
+  ntr st' = N.max (ntr st) ((Z.to_N off + rlen b + tl - 1) / tl) /\
+  same_handle st st' /\ cache_ok st'.
+Proof.
+  intros tl st off b r st' Htl Hwf Hc Hoff Hb H. unfold write_at in H.
+  destruct (Z.ltb_spec off 0) as [Ho0|Ho0]; [lia|].
+  destruct (N.eqb_spec (rlen b) 0) as [Hb0|Hb0]; [lia|].
+  set (o := Z.to_N off) in *. set (start := o / tl) in *. set (e := (o + rlen b + tl - 1) / tl) in *.
+  set (n := ntr st) in *.
+  destruct (tract_of tl o Htl) as (S1 & S2 & _). fold start in S1, S2.
+  destruct (ceil_tract tl (o + rlen b) Htl ltac:(lia)) as (E1 & E2 & E3).
+  replace ((o + rlen b + tl - 1) / tl) with e in * by (unfold e; f_equal; lia).
+  assert (Hse : start < e) by nia.
+  assert (Hout : forall q i, q < start \/ e <= q ->
+            (i <? tl) && (o <=? q * tl + i) && (q * tl + i <? o + rlen b) = false).
+  { intros q i Hq. destruct (N.ltb_spec i tl), (N.leb_spec o (q * tl + i)), (N.ltb_spec (q * tl + i) (o + rlen b));
+      cbn [andb]; auto. exfalso. destruct Hq as [Hq|Hq].
+    - pose proof (mul_lt_tract tl q start Htl Hq). lia.
+    - assert (e * tl <= q * tl) by (apply N.mul_le_mono_r; lia). lia. }
+  destruct (N.ltb_spec start n) as [Hsn|Hsn].
+  - (* some tracts exist already *)
+    destruct (get_tracts st start (N.min e n)) as [[f c] st0] eqn:Hg.
+    destruct (get_tracts_spec st start (N.min e n) f c st0 Hc ltac:(lia) Hg) as (_ & _ & G1 & G2 & G3 & G4 & G5 & G6 & G7).
+    destruct (write_tracts tl (N.to_nat (N.min e n - start)) start (tracts st0) b o 0) as [T1 wp] eqn:Hw1.
+    rewrite G1 in Hw1.
+    destruct (write_tracts_spec tl o b Htl _ _ _ _ _ _ Hw1) as [Hp1 Hq1]; try lia; try nia.
+    rewrite N2Nat.id in Hp1, Hq1. replace (start + (N.min e n - start)) with (N.min e n) in * by lia.
+    destruct (N.ltb_spec n e) as [Hne|Hne].
+    + (* ... and more are created *)
+      replace (N.min e n) with n in * by lia.
+      replace (N.to_nat (n - n)) with 0%nat in H by lia. cbn [create_empty] in H.
+      cbn [tracts set_tracts] in H.
+      assert (Hwp : o + wp = n * tl) by nia.
+      destruct (write_tracts tl (N.to_nat (e - n)) n T1 (rdrop wp b) (o + wp) 0) as [T2 cp] eqn:Hw2.
+      assert (Hb1 : rlen (rdrop wp b) = rlen b - wp) by apply rlen_rdrop.
+      destruct (write_tracts_spec tl (o + wp) (rdrop wp b) Htl _ _ _ _ _ _ Hw2) as [Hp2 Hq2]; try lia; try nia.
+      rewrite N2Nat.id in Hp2, Hq2. replace (n + (e - n)) with e in * by lia.
+      inversion H; subst r st'. clear H. cbn [tracts ntr set_tracts].
+      split; [f_equal; f_equal; nia|]. split; [|split; [lia|split]].
+      * intro q. fold o start e.
+        destruct (Hq1 q) as [A1 A2]. destruct (Hq2 q) as [B1 B2].
+        destruct (N.ltb_spec q start).
+        { rewrite B1, A1 by lia. split.
+          - destruct (N.leb_spec start q), (N.ltb_spec q e); cbn [andb]; try lia; auto.
+          - intro i. rewrite Hout by lia. reflexivity. }
+        destruct (N.ltb_spec q n).
+        { rewrite B1 by lia. destruct A2 as [A2l A2g]; [lia|]. split.
+          - rewrite A2l. destruct (N.leb_spec start q), (N.ltb_spec q e); cbn [andb]; try lia; auto.
+          - intro i. rewrite A2g. rewrite N.add_0_r. reflexivity. }
+        destruct (N.ltb_spec q e).
+        { destruct B2 as [B2l B2g]; [lia|]. rewrite A1 in B2l, B2g by lia. split.
+          - rewrite B2l, Hb1. destruct (N.leb_spec start q), (N.ltb_spec q e); cbn [andb]; try lia; auto.
+            f_equal. f_equal. lia.
+          - intro i. rewrite B2g, Hb1, rget_rdrop.
+            assert (n * tl <= q * tl) by nia.
+            destruct (N.ltb_spec i tl), (N.leb_spec (o + wp + 0) (q * tl + i)), (N.leb_spec o (q * tl + i)),
+                     (N.ltb_spec (q * tl + i) (o + wp + (rlen b - wp))), (N.ltb_spec (q * tl + i) (o + rlen b));
+              cbn [andb]; try lia; auto.
+            f_equal. lia. }
+        { rewrite B1, A1 by lia. split.
+          - destruct (N.leb_spec start q), (N.ltb_spec q e); cbn [andb]; try lia; auto.
+          - intro i. rewrite Hout by lia. reflexivity. }
+      * unfold same_handle. cbn. tauto.
+      * intros i Hi. cbn [cache ntr set_tracts] in *. specialize (G7 i Hi). lia.
+    + (* all written tracts exist *)
+      replace (N.min e n) with e in * by lia.
+      inversion H; subst r st'. clear H. cbn [tracts ntr set_tracts].
+      split; [f_equal; nia|]. split; [|split; [lia|split]].
+      * intro q. fold o start e. destruct (Hq1 q) as [A1 A2].
+        destruct (N.leb_spec start q), (N.ltb_spec q e); cbn [andb].
+        { destruct A2 as [A2l A2g]; [lia|]. split; auto. intro i. rewrite A2g, N.add_0_r. reflexivity. }
+        { rewrite A1 by lia. split; auto. intro i. rewrite Hout by lia. reflexivity. }
+        { rewrite A1 by lia. split; auto. intro i. rewrite Hout by lia. reflexivity. }
+        { rewrite A1 by lia. split; auto. intro i. rewrite Hout by lia. reflexivity. }
+      * unfold same_handle. cbn. tauto.
+      * intros i Hi. cbn [cache ntr set_tracts] in *. specialize (G7 i Hi). lia.
+  - (* the write starts at or beyond the current last tract *)
+    destruct (N.ltb_spec n e) as [Hne|Hne]; [|lia].
+    set (Th := create_empty (N.to_nat (start - n)) n (tracts st)) in *.
+    destruct (write_tracts tl (N.to_nat (e - start)) start Th b o 0) as [T2 cp] eqn:Hw2.
+    destruct (write_tracts_spec tl o b Htl _ _ _ _ _ _ Hw2) as [Hp2 Hq2]; try lia; try nia.
+    rewrite N2Nat.id in Hp2, Hq2. replace (start + (e - start)) with e in * by lia.
+    inversion H; subst r st'. clear H. cbn [tracts ntr set_tracts].
+    split; [f_equal; nia|]. split; [|split; [lia|split]].
+    + intro q. fold o start e. destruct (Hq2 q) as [B1 B2].
+      destruct (create_empty_spec (N.to_nat (start - n)) n (tracts st) q) as [C1 C2]. fold Th in C1, C2.
+      destruct (N.leb_spec start q), (N.ltb_spec q e); cbn [andb].
+      { destruct B2 as [B2l B2g]; [lia|]. rewrite B2l, C1. split; auto.
+        intro i. rewrite B2g, N.add_0_r, C2. reflexivity. }
+      { rewrite B1 by lia. split; auto. intro i. rewrite Hout by lia. auto. }
+      { rewrite B1 by lia. split; auto. intro i. rewrite Hout by lia. auto. }
+      { rewrite B1 by lia. split; auto. intro i. rewrite Hout by lia. auto. }
+    + unfold same_handle. cbn. tauto.
+    + intros i Hi. cbn [cache ntr set_tracts] in *. specialize (Hc i Hi). fold n in Hc. lia.
+Qed.
